@@ -3,11 +3,13 @@
 
   The encoder model (Logg.Model.Encoder / Quote) is tied to the code byte for byte by the
   correspondence; `isPrint` is strconv.IsPrint through the regenerated table.
-  Proved here: cleanliness of the quoting for ALL byte strings, and the one-line theorem for whole
-  records (groups at any depth and position). The parse-back of every pair with its exact value is
-  decided per generated record by the oracle (tokenizer + strconv.Unquote) — see DESIGN.md.
+  Proved here: cleanliness of the quoting for ALL byte strings, the round trip unquote ∘ quote = id
+  for ALL byte strings, and the one-line theorem for whole records (groups at any depth and
+  position). The tokenisation of a whole line into its pairs is decided per generated record by the
+  oracle (tokenizer + strconv.Unquote) — see DESIGN.md.
 -/
 import Logg.Lemmas.EncoderClean
+import Logg.Lemmas.QuoteRoundTrip
 
 namespace Logg.Props.C05
 open Logg Logg.Lemmas
@@ -22,6 +24,18 @@ theorem quoted_value_has_no_control_byte (s : Bytes) : Clean (goQuote isPrintTab
 /-- the quoted form starts and ends with a quote -/
 theorem quoted_value_is_delimited (isPrint : Nat → Bool) (s : Bytes) :
     ∃ body, goQuote isPrint s = 34 :: body ++ [34] := ⟨_, rfl⟩
+
+/-- (1') Exact value: reading the quoted form back with `strconv.Unquote` gives the original
+    bytes — for EVERY byte string: CR/LF, quotes, backslashes, control bytes, invalid UTF-8,
+    unprintable and astral runes (\x, \u, \U escapes) included. This is the value half of "parsing the
+    line gives back … every attribute … with its exact value" for all string-like kinds. -/
+theorem quoted_value_parses_back (s : Bytes) : goUnquote (goQuote isPrintTable s) = some s :=
+  goUnquote_goQuote isPrintTable isPrintTable_safe s
+
+/-- the same for any printability table that never calls a control byte printable (the property does
+    not depend on the Unicode tables of the Go release) -/
+theorem quoted_value_parses_back_any_table (isPrint : Nat → Bool) (hp : PrintSafe isPrint) (s : Bytes) :
+    goUnquote (goQuote isPrint s) = some s := goUnquote_goQuote isPrint hp s
 
 /-- (2) A logfmt record is exactly one line: the payload is `body ++ [LF]` and `body` contains no control
     byte at all — for every message, logger name, severity, attribute list with groups nested to any depth
